@@ -651,6 +651,21 @@ fn type_group_sweep(which: Which, tier: Tier) -> Sweep {
     .with_post_abort(abort_verdict)
 }
 
+fn late_hole_sweep(which: Which, tier: Tier) -> Sweep {
+    let fam = Rc::new(sem::late_hole_family());
+    let f2 = fam.clone();
+    Sweep::new(
+        "late-hole family (a parameter without annotation whose type is fixed under further binders and groups)",
+        fam.len() as u64,
+        move |idx| {
+            count!("late_hole_programs");
+            examine(&fam[idx as usize], which, tier)
+        },
+        move |idx| f2[idx as usize].clone(),
+    )
+    .with_post_abort(abort_verdict)
+}
+
 fn type_pair_sweep(which: Which, tier: Tier) -> Sweep {
     let fam = Rc::new(sem::type_pair_family(tier.pick(60, 140), tier));
     let f2 = fam.clone();
@@ -703,6 +718,28 @@ pub fn recursion_programs() -> Vec<(String, String)> {
             format!("ack : (int -> int -> int) = (m : int) => (n : int) => if m == 0 then n + 1 else if n == 0 then ack (m - 1) 1 else ack (m - 1) (ack m (n - 1)); ack {m} {n}"),
             r.to_string(),
         ));
+    }
+    // placeholder definitions: any subset of the members of a group of four is named `_` (never bound,
+    // never referable); the body adds up the named ones, directly and through a function that refers
+    // forward to the last named member
+    for mask in 0u32..15 {
+        for annotated in [false, true] {
+            let values = [1u64, 10, 100, 1000];
+            let mut defs = vec![];
+            let mut named = vec![];
+            for (i, v) in values.iter().enumerate() {
+                let name = if mask & (1 << i) != 0 { "_".to_owned() } else { format!("m{i}") };
+                if name != "_" {
+                    named.push((name.clone(), *v));
+                }
+                defs.push(if annotated { format!("{name} : int = {v}") } else { format!("{name} = {v}") });
+            }
+            let sum: u64 = named.iter().map(|(_, v)| v).sum();
+            let body = named.iter().map(|(n, _)| n.clone()).collect::<Vec<_>>().join(" + ");
+            v.push((format!("{}; {body}", defs.join("; ")), sum.to_string()));
+            let (last, lv) = named.last().unwrap().clone();
+            v.push((format!("f : (int -> int) = (x : int) => x + {last}; {}; f 5 + {body}", defs.join("; ")), (5 + lv + sum).to_string()));
+        }
     }
     // evaluation order probes: only one order avoids the division by zero / the loop
     v.push(("if true then 1 else 1 / 0".into(), "1".into()));
@@ -959,6 +996,7 @@ pub fn sweeps_for(which: Which, tier: Tier) -> Vec<Sweep> {
             v.push(order_sweep(which, tier, 2));
             v.push(order_sweep(which, tier, 3));
             v.push(type_group_sweep(which, tier));
+            v.push(late_hole_sweep(which, tier));
         }
         Which::C02 => {
             v.push(nested_sweep(which, tier));
@@ -975,6 +1013,7 @@ pub fn sweeps_for(which: Which, tier: Tier) -> Vec<Sweep> {
             v.push(small_sweep(which, tier));
             v.push(alias_sweep(which, tier));
             v.push(type_pair_sweep(which, tier));
+            v.push(late_hole_sweep(which, tier));
         }
         Which::C04 => {
             v.push(nested_sweep(which, tier));
